@@ -21,6 +21,18 @@ def mypy_tree(args):
     with impl.Gen(doc, cfg=cfg) as g:
         if g.exc is not None or g.has_error_level():
             return {"label": label, "skipped": True}
+        overlap_modules, rawfb = [], []
+        try:
+            data, config = impl.parse_doc(doc, cfg=cfg)
+            ab = absprop.Abs(data)
+            for m in ab.models:
+                if c02.union_classes(ab, ("model", str(m.class_info.name))):
+                    overlap_modules.append(str(m.class_info.module_name))
+            for _mod, _tag, ep in epwork.endpoints_of(data, config):
+                if epwork.non_identifier_params(ep):
+                    rawfb.append(_mod.replace(".", "/"))
+        except Exception:
+            pass
         env = dict(os.environ, MYPYPATH=str(VERIF / "harness" / "stubs"))
         r = subprocess.run(["/venv/bin/mypy", str(g.out), "--strict", "--no-incremental", "--cache-dir=/dev/null", "--show-error-codes", "--no-error-summary"],
                            capture_output=True, text=True, cwd=str(g.root), env=env, timeout=600)
@@ -33,7 +45,8 @@ def mypy_tree(args):
                 ctx[l] = src[ln - 1].strip()[:200]
             except Exception:
                 pass
-        return {"label": label, "rc": r.returncode, "errors": errs, "context": ctx, "doc": doc, "cfg": cfg, "stderr": r.stderr[-300:]}
+        return json.loads(json.dumps({"label": label, "rc": r.returncode, "errors": errs, "context": ctx, "doc": doc, "cfg": cfg, "stderr": r.stderr[-300:],
+                                      "overlap_modules": overlap_modules, "rawfb": rawfb}, default=str))
 
 
 def types_work(args):
@@ -147,6 +160,13 @@ def run(run, tier, replay=None):
                     continue
             if "[assignment]" in e and "/models/" in e and src.startswith(e.split("/models/")[1].split(".py")[0][:0] or "") and " = str(self." in src and 'variable has type "Unset | bytes"' in e:
                 if run.known_finding("mypy_uuid_multipart", f"tree '{m['label']}': {e[:200]} | {src}"):
+                    continue
+            modfile = e.split(":")[0]
+            if "/models/" in modfile and modfile.split("/models/")[1][:-3] in (m.get("overlap_modules") or []):
+                if run.known_finding("mypy_union_overlap", f"tree '{m['label']}': {e[:200]} | {src}"):
+                    continue
+            if "[syntax]" in e and any(modfile.endswith(x + ".py") for x in (m.get("rawfb") or [])):
+                if run.known_finding("raw_fallback", f"tree '{m['label']}': {e[:160]} | {src}"):
                     continue
             rest.append(e)
         m["errors"] = rest
